@@ -306,3 +306,64 @@ Qed.
 Theorem file_no_line_empty_map : forall R sing content,
   phase1 (getlines content) 0 None None = Some (0, None) -> from_file R sing content = Map 0 0 [].
 Proof. intros R sing content H. unfold from_file. rewrite H. reflexivity. Qed.
+
+(* ---------------------------------------------------------------------- *)
+(* from the map to cores: every thread of a flat map is bound to a core of the
+   cpuset the process is allowed to use, whatever the shape of that cpuset *)
+Lemma find_core_in : forall allowed w, Forall (fun c => 0 <= c) allowed -> 0 <= w < Z.of_nat (length allowed) ->
+  In (find_core_by_idx allowed w) allowed /\ 0 <= find_core_by_idx allowed w.
+Proof.
+  intros allowed w Hpos Hw. unfold find_core_by_idx. replace (w <? 0) with false by lia.
+  assert (Hin : In (nth (Z.to_nat w) allowed (-1)) allowed) by (apply nth_In; lia).
+  split; auto. rewrite Forall_forall in Hpos. auto.
+Qed.
+
+Lemma select_core_in : forall allowed used cands first, Forall (fun c => 0 <= c) allowed ->
+  Forall (fun w => 0 <= w < Z.of_nat (length allowed)) cands ->
+  (first = -1 \/ In first allowed) -> (cands <> [] \/ In first allowed) ->
+  In (select_core allowed used cands first) allowed.
+Proof.
+  intros allowed used cands. induction cands as [|w t IH]; intros first Hpos Hc Hf Hne; cbn [select_core].
+  - destruct Hne as [Hne|Hne]; [congruence|auto].
+  - inv Hc. destruct (find_core_in allowed w Hpos H1) as [Hin Hge].
+    replace (find_core_by_idx allowed w <? 0) with false by lia.
+    destruct (negb (zmem (find_core_by_idx allowed w) used)); auto.
+    apply IH; auto.
+    + destruct (first <? 0) eqn:E; auto.
+    + right. destruct (first <? 0) eqn:E; auto. destruct Hf as [->|Hf]; [discriminate|auto].
+Qed.
+
+Lemma apply_locations_in : forall allowed R ths used, Forall (fun c => 0 <= c) allowed -> R = Z.of_nat (length allowed) ->
+  Forall (fun t => is_fin (t_set t) /\ elems (t_set t) <> [] /\ Forall (fun x => 0 <= x < R) (elems (t_set t))) ths ->
+  length (apply_locations allowed used R ths) = length ths /\
+  Forall (fun c => In c allowed) (apply_locations allowed used R ths).
+Proof.
+  intros allowed R ths. induction ths as [|t r IH]; intros used Hpos HR Hths; cbn [apply_locations].
+  - split; auto.
+  - inv Hths. destruct H1 as (Hfin & Hne & Hrange).
+    destruct (IH (if select_core allowed used (thread_cands (Z.of_nat (length allowed)) t) (-1) <? 0 then used
+                  else select_core allowed used (thread_cands (Z.of_nat (length allowed)) t) (-1) :: used) Hpos eq_refl H2) as [IH1 IH2].
+    split; [cbn; rewrite IH1; auto|]. constructor; auto.
+    unfold thread_cands. destruct (t_set t) as [|l|]; cbn in Hfin; try contradiction.
+    apply select_core_in; auto.
+Qed.
+
+Theorem flat_bindings_inside_cpuset : forall allowed sing nb, allowed <> [] -> Forall (fun c => 0 <= c) allowed ->
+  exists cores, user_flat_bindings allowed sing nb = Some cores /\
+    length cores = Z.to_nat (init_nb (Z.of_nat (length allowed)) nb) /\
+    Forall (fun c => In c allowed) cores.
+Proof.
+  intros allowed sing nb Hne Hpos. unfold user_flat_bindings.
+  set (R := Z.of_nat (length allowed)).
+  assert (HR : 1 <= R) by (unfold R; destruct allowed; [congruence|cbn [length]; lia]).
+  assert (Hnb : 1 <= init_nb R nb <= R) by (unfold init_nb; destruct (nb <=? 0) eqn:E; lia).
+  destruct (flat_map R sing (init_nb R nb) Hnb) as (ths & Hf & Hl & H1 & H2 & Hall). rewrite Hf.
+  eexists. split; [reflexivity|].
+  assert (Hths : Forall (fun t => is_fin (t_set t) /\ elems (t_set t) <> [] /\ Forall (fun x => 0 <= x < R) (elems (t_set t))) ths).
+  { apply Forall_forall. intros t Ht. destruct (In_nth_error _ _ Ht) as [k Hk].
+    assert (Hk' : (k < Z.to_nat (init_nb R nb))%nat) by (rewrite <- Hl; apply nth_error_Some; congruence).
+    destruct (Hall (Z.of_nat k)) as (t' & Ht' & _ & Hfin & Hne' & HF); [lia|].
+    rewrite Nat2Z.id, Hk in Ht'. inv Ht'. split; auto. split; auto.
+    eapply Forall_impl; [|exact HF]. cbn. intros x Hx. nia. }
+  destruct (apply_locations_in allowed R ths [] Hpos eq_refl Hths) as [A1 A2]. split; auto. lia.
+Qed.
